@@ -38,7 +38,8 @@ def run(tier, rep, work):
         if g and quick:
             g = g[::2]
         vecfam.run_config(rep, work, exe, d, "C14", tier, cfg, g, i)
-    rep.cov["exhaustive"] = True
+    rep.cov["exhaustive"] = not quick
+    rep.cov["exhaustive_scope"] = "every generated history replayed in the thorough tier (1 in 2 in the quick tier); random histories are samples"
     rep.cov["rule"] = vecfam.RULE + (" PQ specifics: the score table is the Euclidean distance between the preprocessed query (its residual to the list centroid for IVFPQ) and the "
                                      "reconstruction from the stored code, recomputed in float64 from exported codebooks; every add logs the stored code, checked to be a nearest "
                                      "code word in every sub-space (table CodeD); every returned score is also checked against |score - true distance| <= quantisation error.")
